@@ -44,12 +44,11 @@ import (
 // =============================================================================================
 
 type c44Params struct {
-	name           string
-	n, w           int
-	faults, ticks  int
-	stops          int // stop budget
-	joins          int // join budget per worker name
-	shard, nshards int
+	name          string
+	n, w          int
+	faults, ticks int
+	stops         int // stop budget
+	joins         int // join budget per worker name
 }
 
 type c44Worker struct {
@@ -292,16 +291,13 @@ func (w *c44World) ops(explore bool) []c42Op {
 				out = append(out, c42Op{label: "stop " + k.tag(), run: func() { w.stops++; w.stopWorker(i) }})
 			}
 		}
-		owns := func(kind, msgKind string) bool {
-			return w.faults > 0 || c42OwnsFirstFault(kind, msgKind, len(w.events), w.p.shard, w.p.nshards)
-		}
 		if w.faults < w.p.faults {
 			for _, e := range ents {
 				m := e.m
-				if owns("drop", c42Kind(m.msg)) {
+				{
 					out = append(out, c42Op{label: "drop " + e.s, cost: 1, run: func() { w.faults++; w.net.c42Remove(m) }})
 				}
-				if owns("dup", c42Kind(m.msg)) {
+				{
 					out = append(out, c42Op{label: "dup " + e.s, cost: 1, run: func() {
 						w.faults++
 						w.net.c42Add(&c42Msg{from: m.from, to: m.to, msg: m.msg})
@@ -313,7 +309,7 @@ func (w *c44World) ops(explore bool) []c42Op {
 			// free while the network is idle; overtaking pool messages is the "delay" fault (cost 1)
 			if len(ents) == 0 {
 				out = append(out, c42Op{label: "tick", run: func() { w.ticks++; time.Sleep(c42Interval) }})
-			} else if w.faults < w.p.faults && owns("delay", "") {
+			} else if w.faults < w.p.faults {
 				out = append(out, c42Op{label: "tick(delaying the pool)", cost: 1, run: func() { w.ticks++; w.faults++; time.Sleep(c42Interval) }})
 			}
 		}
@@ -599,12 +595,8 @@ func c44Exec(t *testing.T, p c44Params, hist []string, withCont bool) (res c42Re
 
 func c44Scenarios() []c44Params {
 	r := vsched.Rep()
-	sh, nsh := r.Shard, r.NShards
-	if r.ReplayScenario() != "" {
-		sh, nsh = 0, 1
-	}
 	mk := func(n, win, f, tk, stops, joins int) c44Params {
-		return c44Params{name: fmt.Sprintf("workpull/N%d/W%d/F%d/T%d/stops%d/joins%d", n, win, f, tk, stops, joins), n: n, w: win, faults: f, ticks: tk, stops: stops, joins: joins, shard: sh, nshards: nsh}
+		return c44Params{name: fmt.Sprintf("workpull/N%d/W%d/F%d/T%d/stops%d/joins%d", n, win, f, tk, stops, joins), n: n, w: win, faults: f, ticks: tk, stops: stops, joins: joins}
 	}
 	if s := os.Getenv("VERIF_C44_CFG"); s != "" { // development aid
 		var n, win, f, tk, stops, joins int
